@@ -1,9 +1,15 @@
 #!/bin/bash
-# mutrun.sh <patch.diff> <Cxx> [tier]: apply a seeded change to /repo, run the check, undo it
+# mutrun.sh <patch.diff> <Cxx> [tier]: apply a seeded change to /repo, run the check, undo it.
+# The change is undone from a trap (also on INT/TERM/HUP), and the script refuses to start on a dirty /repo:
+# a seeded change left behind in the working tree is indistinguishable from a defect of the repository.
 P=$1; C=$2; T=${3:-quick}
-cd /repo && git apply --check $P 2>/dev/null || { echo "PATCH-DOES-NOT-APPLY $P"; exit 3; }
+cd /repo || exit 3
+[ -z "$(git status --porcelain --untracked-files=no)" ] || { echo "REPO-NOT-CLEAN: refusing to apply $P"; exit 3; }
+git apply --check $P 2>/dev/null || { echo "PATCH-DOES-NOT-APPLY $P"; exit 3; }
+undo() { git -C /repo apply -R $P 2>/dev/null || git -C /repo checkout -- .; }
+trap 'undo; trap - EXIT; exit 130' INT TERM HUP
+trap undo EXIT
 git apply $P
 cd /verif && ./check $C --tier $T > /tmp/mutrun.out 2>&1; rc=$?
-git -C /repo checkout -- .
 echo "check $C ($T) rc=$rc: $(grep -c '^VIOLATION' /tmp/mutrun.out) violation lines; $(grep -m2 'what:' /tmp/mutrun.out | cut -c1-220)"
 exit $rc
